@@ -192,6 +192,7 @@ def leg(run):
     plan = ([("census", 130), ("censuslong", 16), ("mixed", 60), ("collision", 24), ("delay", 16), ("wait", 16)] if quick else
             [("census", 3000), ("censuslong", 400), ("mixed", 1500), ("settled", 500), ("collision", 500), ("delay", 300), ("wait", 300)])
     for k, (fam, n) in enumerate(plan):
+        n = run.scaled(n) if quick else n       # anchor drift: escalated budget
         done = 0
         while done < n:
             m = min(600, n - done)
